@@ -76,6 +76,10 @@ def build(cfg="default", repo=None, quiet=True):
     out = facts_dir(cfg, key)
     stamp = os.path.join(out, "COMPLETE")
     if os.path.exists(stamp):
+        try:
+            os.utime(os.path.dirname(out), None)
+        except OSError:
+            pass
         return out
     os.makedirs(CACHE, exist_ok=True)
     # one of a few reusable target dirs (registry dependencies stay compiled; workspace members
@@ -138,11 +142,14 @@ def build(cfg="default", repo=None, quiet=True):
         with open(stamp, "w") as fh:
             json.dump({"tree": key, "files_hashed": nfiles, "cfg": cfg,
                        "build_s": round(time.time() - t0, 1)}, fh)
-        # keep at most 40 distinct trees in the cache
-        roots = sorted(glob.glob(os.path.join(CACHE, "facts", "*")), key=os.path.getmtime)
-        for old in roots[:-40]:
-            if os.path.basename(old) != key:
-                shutil.rmtree(old, ignore_errors=True)
+        # bound the cache: drop fact trees that have not been touched for six hours
+        now = time.time()
+        for old in glob.glob(os.path.join(CACHE, "facts", "*")):
+            try:
+                if os.path.basename(old) != key and now - os.path.getmtime(old) > 6 * 3600:
+                    shutil.rmtree(old, ignore_errors=True)
+            except OSError:
+                pass
         return out
     finally:
         fcntl.flock(lock, fcntl.LOCK_UN)
